@@ -73,7 +73,7 @@ fn str_lists() -> Vec<V> {
 /// C10's edge domain of one parameter kind (the same in both tiers)
 fn domain(p: P) -> Vec<V> {
     match p {
-        P::Recv | P::Str2 | P::BufStr | P::ElemStr => edge_strings(),
+        P::Recv | P::RecvReplace | P::Str2 | P::BufStr | P::ElemStr => edge_strings(),
         P::Idx | P::ListIdx => edge_indices(),
         P::Rep => ints(0..=3),
         P::SplitN => ints((0..=3u64).chain(BIG).map(|x| x as i128)),
